@@ -114,7 +114,7 @@ def rtimer_extra(prop):
 
 META["C03"] = {
     "title": "Sources and single-input operators compute their documented sequence",
-    "rule": "cases = (operator chain AST, input script). Enumerated: every single-input operator x every parameter in 0..n+1 / predicate family x every script over {0,1,2} up to length n (quick 3, thorough 6) x terminal {none,complete,error} x sources {Subject, create (sync and stashed-handle), from_iter}; every basic source alone and under every operator; plus seeded random chains of depth 2..5 with post-terminal events. Long scripts (counter long_script_cases): chains of 1-2 operators with parameters up to 12 over scripts of up to 40 items from an alphabet of 12 values (operators that remember what they have seen or keep the last n items). One long chain in ten is pairwise + distinct / distinct_until_changed: the harness item type hashes a pair by its first component only (Hash coarser than Eq, which is legal), so comparing hashes instead of values is observable. Large parameters (counter large_parameter_cases): take / skip / take_last / skip_last / element_at / buffer_with_count with counts 1024..5000 over from_iter of 1024, 1025 and 3000 items. Callback operators and operators whose item type the AST cannot carry run in the typed battery over a hot subject for 5 inputs x {no terminal, complete, error} (counter callback_operator_cases): on_complete (its callback once, before the downstream completion), on_error (callback once with the error, which ends there: no terminal downstream), timestamp (values untouched, instants ordered and inside the run), collect_into (the given collection extended by the items, on completion only). A hot source is shared: in half of the hot-source cases (a function of the script; counter hot_cases_behind_a_closed_pipeline_on_the_same_source) another pipeline was registered on the same subject first and is already over - unsubscribed at once, or a take(1) that finishes by itself - when the events arrive; the pipeline under test is owed the same sequence. A case is non-trivial when the reference model's expected output contains an item, or terminates although the input did not, or ends with an error; distinct = distinct hash of (AST, script).",
+    "rule": "cases = (operator chain AST, input script). Enumerated: every single-input operator x every parameter in 0..n+1 / predicate family x every script over {0,1,2} up to length n (quick 3, thorough 6) x terminal {none,complete,error} x sources {Subject, create (sync and stashed-handle), from_iter}; every basic source alone and under every operator; plus seeded random chains of depth 2..5 with post-terminal events. Long scripts (counter long_script_cases): chains of 1-2 operators with parameters up to 12 over scripts of up to 40 items from an alphabet of 12 values (operators that remember what they have seen or keep the last n items). One long chain in ten is pairwise + distinct / distinct_until_changed: the harness item type hashes a pair by its first component only (Hash coarser than Eq, which is legal), so comparing hashes instead of values is observable. sum() over an item type whose `+` does not commute (string concatenation): the left fold in emission order, as reduce(|acc, v| acc + v) gives. Large parameters (counter large_parameter_cases): take / skip / take_last / skip_last / element_at / buffer_with_count with counts 1024..5000 over from_iter of 1024, 1025 and 3000 items. Callback operators and operators whose item type the AST cannot carry run in the typed battery over a hot subject for 5 inputs x {no terminal, complete, error} (counter callback_operator_cases): on_complete (its callback once, before the downstream completion), on_error (callback once with the error, which ends there: no terminal downstream), timestamp (values untouched, instants ordered and inside the run), collect_into (the given collection extended by the items, on completion only). A hot source is shared: in half of the hot-source cases (a function of the script; counter hot_cases_behind_a_closed_pipeline_on_the_same_source) another pipeline was registered on the same subject first and is already over - unsubscribed at once, or a take(1) that finishes by itself - when the events arrive; the pipeline under test is owed the same sequence. A case is non-trivial when the reference model's expected output contains an item, or terminates although the input did not, or ends with an error; distinct = distinct hash of (AST, script).",
     "assumptions": COMMON_ASSUME + [
         "reference list semantics are written from the doc comments in src/observable.rs; where they are silent (take(0) on an unterminated input) both behaviours are accepted",
         "buffer_with_count(0) and float `average` are exercised only in the typed static battery",
@@ -313,7 +313,7 @@ META["C14"] = {
 
 META["C11"] = {
     "title": "publish/connect and share subscribe the source once and multicast",
-    "rule": "cases = (share | share_threads | publish::<Subject>()+fork()/connect(), source hot Subject behind a tap counter | deferred cold synchronous source behind a subscription counter | interval(5ms) on the virtual clock behind a tap counter, history of length <= 10 quick / <= 18 thorough over subscribe(k) / unsubscribe(k) / source-emit / source-complete / connect / one-period tick, k < 3, one subscription per slot). Checked in lock step against a multicast model: who was subscribed at each emission receives it once, in order; the source is not subscribed before connect(); it is subscribed at most once; after the last subscriber's unsubscribe() returned the tap counter no longer moves on later source events (hot) or one period later (interval); conversely, while a publish() is connected and its source has not ended, the periodic source must keep ticking whoever joins or leaves (source_retired_while_connected). Non-trivial: at least two subscribers overlapped and one left before the source ended; distinct = hash(case). Thread part (scenario share_threads[multi]): 2-3 probes subscribed to clones of one hot.share_threads(), 2-3 threads each running up to 4 of next / unsubscribe(k) / subscribe (never re-joining after the count reached zero) plus an occasional terminal, scheduled at the hooked lock points (random, PCT and preemption-bounded systematic schedules) and then free-running on OS threads with seeded jitter; oracle over call/return stamps: a subscriber whose subscribe() returned before next(v) was called and whose unsubscribe() was not called before it returned receives v exactly once, all subscribers agree on one order, nothing begins on a probe after its unsubscribe() returned, every call returns. Join-in-callback battery (counter joins_from_inside_a_subscriber_callback, 48 cases): share / share_threads over a cold source that emits 1,2,3 at subscription (staying open, or completing) or over a hot subject; the first subscriber's callback for item i (or for the completion) subscribes 1-2 further probes to clones of the same share - the emission of a synchronous source happens inside the connecting subscription; expected: no panic, no self-deadlock, the first subscriber sees everything, a subscriber that joined during item i sees exactly the items after i, the source is subscribed once. Subscribers also join through take(1) (finishing by themselves after one item while keeping their handle) and through start_with([0]).first() (finished before the share itself is subscribed).",
+    "rule": "cases = (share | share_threads | publish::<Subject>()+fork()/connect(), source hot Subject behind a tap counter | deferred cold synchronous source behind a subscription counter | interval(5ms) on the virtual clock behind a tap counter, history of length <= 10 quick / <= 18 thorough over subscribe(k) / unsubscribe(k) / source-emit / source-complete / connect / one-period tick, k < 3, one subscription per slot). Checked in lock step against a multicast model: who was subscribed at each emission receives it once, in order; the source is not subscribed before connect(); it is subscribed at most once; after the last subscriber's unsubscribe() returned the tap counter no longer moves on later source events (hot) or one period later (interval); conversely, while a publish() is connected and its source has not ended, the periodic source must keep ticking whoever joins or leaves (source_retired_while_connected). Non-trivial: at least two subscribers overlapped and one left before the source ended; distinct = hash(case). Thread part (scenario share_threads[multi]): 2-3 probes subscribed to clones of one hot.share_threads(), 2-3 threads each running up to 4 of next / unsubscribe(k) / subscribe (never re-joining after the count reached zero) plus an occasional terminal, scheduled at the hooked lock points (random, PCT and preemption-bounded systematic schedules) and then free-running on OS threads with seeded jitter; oracle over call/return stamps: a subscriber whose subscribe() returned before next(v) was called and whose unsubscribe() was not called before it returned receives v exactly once, all subscribers agree on one order, nothing begins on a probe after its unsubscribe() returned, every call returns. Never-connected battery (counter publish_cases_never_connected, 4 cases): forks of a publish() and the connectable value itself (an Observable too; subscribing it consumes it, so connect() can never be called) are subscribed over a cold and over a hot source that then emits: no source subscription, no upstream item, no delivery. Join-in-callback battery (counter joins_from_inside_a_subscriber_callback, 48 cases): share / share_threads over a cold source that emits 1,2,3 at subscription (staying open, or completing) or over a hot subject; the first subscriber's callback for item i (or for the completion) subscribes 1-2 further probes to clones of the same share - the emission of a synchronous source happens inside the connecting subscription; expected: no panic, no self-deadlock, the first subscriber sees everything, a subscriber that joined during item i sees exactly the items after i, the source is subscribed once. Subscribers also join through take(1) (finishing by themselves after one item while keeping their handle) and through start_with([0]).first() (finished before the share itself is subscribed).",
     "assumptions": COMMON_ASSUME + [
         "whether a share re-connects when somebody joins after its subscriber count dropped to zero is unspecified; such re-joins are generated for hot sources only (counter histories_with_a_rejoin_after_everybody_left) and the re-joined subscriber is owed exactly the emissions the shared source is seen to make (upstream tap), nothing is demanded about terminals after a re-join; thread scenarios never re-join",
         "a cold synchronous source emits during the connecting subscription: only subscribers present at that moment receive those items",
@@ -322,7 +322,7 @@ META["C11"] = {
     "level_text": "Exploration over sampled histories for three source kinds and three multicast spellings, plus sampled and preemption-bounded thread schedules of a multi-subscriber share_threads.",
     "level_note": "Trusted: multicast model in harness/src/props/c11.rs, virtual clock for the interval source.",
     "design_ref": "DESIGN.md §5 C11",
-    "require": {"quick": {"modes_covered": 8, "joins_from_inside_a_subscriber_callback": 48, "histories_where_the_last_subscriber_left": 5000, "thread_schedules": 8000, "free_parallel_runs": 1500, "histories_with_a_rejoin_after_everybody_left": 2000}, "thorough": {"modes_covered": 8, "joins_from_inside_a_subscriber_callback": 48, "thread_schedules": 300000, "free_parallel_runs": 100000, "histories_with_a_rejoin_after_everybody_left": 50000}},
+    "require": {"quick": {"modes_covered": 8, "joins_from_inside_a_subscriber_callback": 48, "publish_cases_never_connected": 4, "histories_where_the_last_subscriber_left": 5000, "thread_schedules": 8000, "free_parallel_runs": 1500, "histories_with_a_rejoin_after_everybody_left": 2000}, "thorough": {"modes_covered": 8, "joins_from_inside_a_subscriber_callback": 48, "thread_schedules": 300000, "free_parallel_runs": 100000, "histories_with_a_rejoin_after_everybody_left": 50000}},
 }
 
 META["C13"] = {
